@@ -40,8 +40,13 @@ theorem attr_value_exact (tag : Tag) (f sz : Nat) (st : St) (v t' : Bytes) (q c1
   unfold readAttrValue
   rw [bindOk _ _ _ _ _ hbuf]
   have h0 : ([61, q] ++ v ++ [q, c1, c2] ++ t' : Bytes)[0]? = some 61 := by simp
-  have h1 : ([61, q] ++ v ++ [q, c1, c2] ++ t' : Bytes)[1]? = some q := by simp
-  rw [bindOk _ _ _ _ _ (at_ok _ 0 61 st h0), bindOk _ _ _ _ _ (at_ok _ 1 q st h1)]
+  rw [bindOk _ _ _ _ _ (at_ok _ 0 61 st h0)]
+  -- the quote follows the '=' directly: the first non-blank byte after it is at index 1
+  have hq1 : idxFrom (fun b => !isWs b) ([61, q] ++ v ++ [q, c1, c2] ++ t') 1 = 1 := by
+    unfold idxFrom
+    rcases hq with h | h <;> subst h <;> simp [List.findIdx_cons, isWs]
+  have hb1 : ([61, q] ++ v ++ [q, c1, c2] ++ t' : Bytes).getD (1 + 1 - 1) 0 = q := by simp
+  simp only [hq1, hb1, Nat.reduceAdd]
   have hcond : ((61 : UInt8) == 61 && (q == 34 || q == 39)) = true := by rcases hq with h | h <;> subst h <;> decide
   rw [if_pos hcond]
   have hk : (List.drop 2 ([61, q] ++ v ++ [q, c1, c2] ++ t' : Bytes)).findIdx (fun x => x == q) = v.length := by
@@ -74,17 +79,19 @@ theorem attr_value_exact (tag : Tag) (f sz : Nat) (st : St) (v t' : Bytes) (q c1
 
 /-- **Attribute form, a window that is too small.** When the closing quote and the two bytes after it are not all inside
 the window, nothing is consumed and the next, larger window is tried: the outcome does not depend on where the
-window boundaries fall. -/
-theorem attr_value_retry (tag : Tag) (f sz : Nat) (st : St) (buf : Bytes) (b0 b1 : UInt8)
-    (hbuf : peek sz st = (.ok buf, st)) (h0 : buf[0]? = some b0) (h1 : buf[1]? = some b1)
-    (hmiss : ¬ (b0 == 61 && (b1 == 34 || b1 == 39)) = true ∨ ¬ (2 + (buf.drop 2).findIdx (fun x => x == b1) + 2 < buf.length)) :
+window boundaries fall.  (`o`: index after the opening quote, the first non-blank byte after the '='.) -/
+theorem attr_value_retry (tag : Tag) (f sz : Nat) (st : St) (buf : Bytes) (b0 b1 : UInt8) (o : Nat)
+    (hbuf : peek sz st = (.ok buf, st)) (h0 : buf[0]? = some b0)
+    (ho : idxFrom (fun b => !isWs b) buf 1 + 1 = o) (h1 : buf.getD (o - 1) 0 = b1)
+    (hmiss : ¬ (b0 == 61 && (b1 == 34 || b1 == 39)) = true ∨ ¬ (o + (buf.drop o).findIdx (fun x => x == b1) + 2 < buf.length)) :
     readAttrValue tag (f + 1) sz st = readAttrValue tag f (sz + 512) st := by
   conv => lhs; unfold readAttrValue
-  rw [bindOk _ _ _ _ _ hbuf, bindOk _ _ _ _ _ (at_ok _ 0 b0 st h0), bindOk _ _ _ _ _ (at_ok _ 1 b1 st h1)]
+  rw [bindOk _ _ _ _ _ hbuf, bindOk _ _ _ _ _ (at_ok _ 0 b0 st h0)]
+  simp only [ho, h1]
   rcases hmiss with h | h
   · rw [if_neg h]
   · by_cases hc : (b0 == 61 && (b1 == 34 || b1 == 39)) = true
-    · rw [if_pos hc]; simp only []; rw [if_neg h]
+    · rw [if_pos hc]; (try dsimp only); rw [if_neg h]
     · rw [if_neg hc]
 
 /-- **A value that fits no window gives an error, never a value.** -/
